@@ -461,6 +461,11 @@ type Cond struct {
 	Neg  bool  // COther: negated
 	Pos  token.Pos
 	Tag  string // origin tag ("loop", "assume", ...)
+	// Orig is the branch condition as the interpreter saw it (typed, not
+	// normalised), OrigNeg its polarity: the numeric engine (E4) re-evaluates
+	// it with machine semantics.
+	Orig    *Term
+	OrigNeg bool
 }
 
 func (c Cond) Key() string {
@@ -503,6 +508,7 @@ func (c Cond) String() string {
 
 func (c Cond) Not() Cond {
 	r := c
+	r.OrigNeg = !c.OrigNeg
 	switch c.Kind {
 	case CTrue:
 		r.Kind = CFalse
